@@ -165,7 +165,7 @@ def coefs(zero=True, kinds=("int", "float", "complex")):
     if "float" in kinds:
         mag = st.floats(1e-3, 1e3, allow_nan=False)
         opts.append(st.builds(lambda s, m: s * m, st.sampled_from([-1.0, 1.0]), mag))
-        opts.append(st.sampled_from([0.5, -0.25, 1.5, 2.0, -1.0, 0.125]))
+        opts.append(st.sampled_from([0.5, -0.25, 1.5, 2.0, -1.0, 0.125, 50.0, -400.0, 1000.0]))
     if "complex" in kinds:
         part = st.one_of(
             st.floats(-2, 2, allow_nan=False).filter(lambda x: x == 0 or abs(x) >= 1e-3),
@@ -195,12 +195,16 @@ def sums(draw, max_q=5, max_terms=6, dup=True, near_cancel=False, **kw):
     ts = draw(st.lists(terms(max_q=max_q, **kw), max_size=max_terms))
     if dup and ts and draw(st.integers(0, 2)) == 0:
         t = dict(draw(st.sampled_from(ts)))
-        if near_cancel and draw(st.integers(0, 2)) == 0 and coef(t["c"]) != 0:
-            # a like term that nearly cancels the first one: the residue c*d is small next to the summands but is
-            # (unless below the library's absolute 1e-8 zero tolerance) part of the operator
-            d = draw(st.sampled_from(NEAR_CANCEL))
+        if near_cancel and draw(st.integers(0, 1)) == 0 and coef(t["c"]) != 0:
+            # a like term that nearly cancels the first one: the residue is small next to the summands but is part of the
+            # operator as written (and, unless below the library's absolute 1e-8 zero tolerance, of every result)
             c = t["c"]
-            t["c"] = ["c", -c[1] * (1 + d), -c[2] * (1 + d)] if isinstance(c, list) else -float(c) * (1 + d)
+            if draw(st.booleans()):
+                d = draw(st.sampled_from(NEAR_CANCEL))
+                t["c"] = ["c", -c[1] * (1 + d), -c[2] * (1 + d)] if isinstance(c, list) else -float(c) * (1 + d)
+            else:
+                r = draw(st.sampled_from([8e-9, -3e-9, 5e-10, 9.5e-9, 2e-7, -1e-5, 1.2e-8]))  # the residue itself
+                t["c"] = ["c", -c[1] - r, -c[2]] if isinstance(c, list) else -float(c) - r
         else:
             t["c"] = draw(coefs(kw.get("zero", True), kw.get("kinds", ("int", "float", "complex"))))
         ts.insert(draw(st.integers(0, len(ts))), t)
